@@ -160,6 +160,9 @@ pub struct CaPlan {
 	pub token_len: usize,
 	#[serde(default)]
 	pub validate: Option<Validate>,
+	/// Retry-After header value attached to authorization / order objects
+	#[serde(default)]
+	pub retry_after: Option<String>,
 }
 
 fn default_true() -> bool {
@@ -188,6 +191,7 @@ impl Default for CaPlan {
 			extra_unknown_challenge: false,
 			token_len: 43,
 			validate: None,
+			retry_after: None,
 		}
 	}
 }
